@@ -180,8 +180,12 @@ func (q *ShardQueue) foreach() {
 			return
 		}
 		verifPoint(vpWorkerExit, q, 0)
-		// if state is closing, change it to closed
-		atomic.CompareAndSwapInt32(&q.state, closing, closed)
+		// if state is closing, change it to closed - but only on a trigger count read after the
+		// closing state was seen: the check above is stale by now, getters added (and counted)
+		// before Close was called may still be waiting for the next worker.
+		if atomic.LoadInt32(&q.state) == closing && atomic.LoadInt32(&q.trigger) == 0 {
+			atomic.CompareAndSwapInt32(&q.state, closing, closed)
+		}
 	})
 }
 
